@@ -490,6 +490,85 @@ def h_mock(params, env=None):
     return fn
 
 
+FS_OPS = [("create", "/doc", "X"), ("create", "/doc", "Y"), ("create", "/bak", "X"), ("create", "/bak", "Y"), ("upload", "/doc", "X"), ("upload", "/doc", "Y"),
+          ("upload", "/bak", "S"), ("delete", "/doc", None), ("delete", "/bak", None), ("rename", "/doc", "/bak"), ("rename", "/bak", "/doc"), ("create", "/doc", "S")]
+
+
+def h_fsreal(params, env=None):
+    """the real FileSystemProvider on a real temporary directory: after every call the hash it reports for each file equals
+    hash_data of the bytes it serves (mtime-keyed hash cache included); modification times are assigned deterministically"""
+    from props import _lab
+
+    def fn():
+        import os
+        import shutil
+        import tempfile
+        e = env or _lab.SymEnv()
+        quiet_repo()
+        import cloudsync.providers.filesystem as FS
+        from cloudsync.exceptions import CloudException
+        mid = (b"0123456789abcdef" * 64)
+        X = b"H" * 1024 + mid + b"T" * 1024
+        Y = b"H" * 1024 + mid[::-1] + b"T" * 1024          # same first and last KiB, different middle
+        contents = {"X": X, "Y": Y, "S": b"small"}
+        d = tempfile.mkdtemp(prefix="verif-c16fs-")
+        prov = FS.FileSystemProvider()
+        prov._connect_observer = lambda path: None           # no watchdog threads: events are not the subject here
+        calls = []
+        try:
+            prov.namespace_id = d
+            prov.connect({"k": "v"})
+            clock = [1_000_000_000]
+            prefix = params.get("prefix") or []
+            for k in range(params["K"]):
+                op = tuple(prefix[k]) if k < len(prefix) else FS_OPS[e.choose("op", len(FS_OPS))]
+                kind, name, arg = op
+                calls.append(op)
+                try:
+                    if kind == "create":
+                        prov.create(name, io.BytesIO(contents[arg]))
+                        clock[0] += 10
+                        os.utime(os.path.join(d, name.lstrip("/")), (clock[0], clock[0]))
+                    elif kind == "upload":
+                        i = prov.info_path(name)
+                        if not i:
+                            continue
+                        prov.upload(i.oid, io.BytesIO(contents[arg]))
+                        clock[0] += 10
+                        os.utime(os.path.join(d, name.lstrip("/")), (clock[0], clock[0]))
+                    elif kind == "delete":
+                        i = prov.info_path(name)
+                        if not i:
+                            continue
+                        prov.delete(i.oid)
+                    elif kind == "rename":
+                        i = prov.info_path(name)
+                        if not i or prov.info_path(arg):
+                            continue
+                        prov.rename(i.oid, arg)
+                except CloudException as ex:
+                    calls[-1] = op + (type(ex).__name__,)
+                for n in ("/doc", "/bak"):
+                    i = prov.info_path(n)
+                    if not i:
+                        continue
+                    b = io.BytesIO()
+                    prov.download(i.oid, b)
+                    want = prov.hash_data(io.BytesIO(b.getvalue()))
+                    for what, got in (("info_path", i.hash), ("info_oid", prov.info_oid(i.oid).hash), ("hash_oid", prov.hash_oid(i.oid))):
+                        if got != want:
+                            return {"ok": False, "info": {"why": "%s reports a hash that differs from hash_data of the bytes the provider serves" % what, "path": n, "calls": calls},
+                                    "sigdata": {"why": "fs hash differs from hash_data of served bytes", "oid_is_path": True, "case_sensitive": True, "last": kind}}
+        finally:
+            try:
+                prov.disconnect()
+            except Exception:
+                pass
+            shutil.rmtree(d, ignore_errors=True)
+        return {"ok": True, "key": repr(calls), "nontrivial": True}
+    return fn
+
+
 def h_connect(params, env=None):
     """connecting with credentials that yield a different identity is refused and leaves the provider disconnected"""
     from props import _lab
@@ -536,12 +615,12 @@ def _mut_hash(params, model=None):
     return fn
 
 
-HARNESSES = {"hash": h_hash, "mock": h_mock, "connect": h_connect, "hash~window-only": _mut_hash}
+HARNESSES = {"hash": h_hash, "mock": h_mock, "connect": h_connect, "fsreal": h_fsreal, "hash~window-only": _mut_hash}
 
 
 def replay(harness, params, model):
     from props import _lab
-    if harness in ("mock", "connect"):
+    if harness in ("mock", "connect", "fsreal"):
         r = _lab.replay_driver(HARNESSES[harness], params, model)
         if r.get("reproduced"):
             r["sig"] = r.get("sigdata") or {"harness": harness, "why": r.get("symptom"), "at": r.get("at")}
@@ -559,6 +638,9 @@ def replay(harness, params, model):
 
 def signature(harness, params, rec):
     info = rec.get("info") or {}
+    if harness == "fsreal":
+        return {"why": "fs hash differs from hash_data of served bytes" if "hash_data" in (info.get("why") or "") else (info.get("why") or rec.get("exc")),
+                "oid_is_path": True, "case_sensitive": True, "last": (info.get("calls") or [[None]])[-1][0]}
     if harness == "mock":
         return {"why": info.get("why") or rec.get("exc"), "oid_is_path": params["oid_is_path"], "case_sensitive": params["case_sensitive"],
                 "last": (info.get("calls") or [[None]])[-1][0]}
@@ -573,6 +655,7 @@ def jobs(tier):
         {"harness": "hash", "params": {"mode": "get_hash", "lmax": LMAX}, "label": "fs-hash/get_hash/L<=%d" % LMAX},
         {"harness": "hash~window-only", "params": {"mode": "cache", "lmax": LMAX}, "label": "fs-hash~window-only", "role": "sens"},
         {"harness": "connect", "params": {}, "label": "connect-identity"},
+        {"harness": "fsreal", "params": {"K": 4, "prefix": [["create", "/bak", "X"]]} if q else {"K": 4}, "label": "filesystem-provider/real-directory/4-calls" + ("/first=create-bak" if q else "")},
     ]
     for oip in (False, True):
         for cs in (True, False):
@@ -592,7 +675,7 @@ def meta(tier):
                        "(b) M2: every public MockProvider call against a reference tree under solver-enumerated call sequences.",
         "bounds": {"file length": "0 <= L <= %d (three 4 KiB blocks + 5), every value" % LMAX, "mock": "2 (thorough 3) calls from 9 kinds over 6 names incl. case variants and a non-ASCII dotted name; 2 id styles x 2 case modes"},
         "symbolic": ["file length L", "call kind, name, rename target"],
-        "outside": ["FileSystemProvider directory operations, watchdog events and the mtime-keyed hash cache on a real directory (OS I/O)", "files longer than the bound",
+        "outside": ["FileSystemProvider folder operations and watchdog events (OS I/O, threads); its file operations and the mtime-keyed hash cache ARE exercised concretely on a real temporary directory (fsreal job)", "files longer than the bound",
                     "moving a folder into itself"],
         "stubs": ["blake2b: injective recording stub", "open/os.stat/os.path.isdir inside cloudsync.providers.filesystem: symbolic file", "virtual clock, counter ids (mock)"],
         "assumptions": ["blake2b is collision free (equal hash <=> equal bytes)"],
